@@ -358,6 +358,24 @@ func main() {
 								break
 							}
 						}
+						// ... and so do the pools the call drew from: two trees held at the same time are two objects,
+						// each the tree of its own statement (a container released twice would be handed out twice)
+						ta, ea := pi.ParseFromModelTokens(mustTokens(parserProbes[2]))
+						tb, eb := pi.ParseFromModelTokens(mustTokens("SELECT c FROM w; SELECT d FROM v"))
+						if ea == nil && eb == nil {
+							wa, _ := parser.NewParser().ParseFromModelTokens(mustTokens(parserProbes[2]))
+							if ta == tb || project.String(ta.Statements) != project.String(wa.Statements) {
+								run.Violate(core.Violation{Sig: "residue-after-cancel|pools|" + site, Clause: "the parser used by a cancelled call remains fit for reuse",
+									Case: caseInfo, Observe: map[string]any{"same_object": ta == tb, "first_tree_now": firstN(project.String(ta.Statements), 300)}, Expect: firstN(project.String(wa.Statements), 300)})
+							}
+							ast.ReleaseAST(wa)
+						}
+						if ta != nil && ta != tb {
+							ast.ReleaseAST(ta)
+						}
+						if tb != nil {
+							ast.ReleaseAST(tb)
+						}
 					} else {
 						for _, tp := range tokProbes {
 							toks, terr := ti.Tokenize([]byte(tp))
